@@ -84,6 +84,10 @@ def make_mo(rng, obasis, atcoords, kind="restricted", occ="closed", norb=None):
             occs[:] = 0.0
             occs[0] = 2.0
             occs[2] = 2.0
+        elif occ == "nonaufbau_beta" and n >= 3:
+            # restricted open shell with a hole in the beta occupations only: alpha 1,1,1 beta 1,0,1
+            occs[:] = 0.0
+            occs[:3] = [2.0, 1.0, 2.0]
         energies = np.sort(np.array([round(rng.uniform(-2, 2), 5) for _ in range(n)]))
         return MolecularOrbitals("restricted", n, n, occs, c, energies, None, amb)
     ca = orthonormal_coeffs(rng, obasis, atcoords, norb)
@@ -92,6 +96,10 @@ def make_mo(rng, obasis, atcoords, kind="restricted", occ="closed", norb=None):
     occs = np.zeros(na + nbb)
     occs[: min(2, na)] = 1.0
     occs[na: na + min(1, nbb)] = 1.0
+    if occ == "nonaufbau_ualpha" and na >= 3:
+        occs[:3] = [1.0, 0.0, 1.0]
+    if occ == "nonaufbau_ubeta" and nbb >= 3:
+        occs[na: na + 3] = [1.0, 0.0, 1.0]
     energies = np.concatenate([np.sort([round(rng.uniform(-2, 2), 5) for _ in range(na)]),
                                np.sort([round(rng.uniform(-2, 2), 5) for _ in range(nbb)])])
     return MolecularOrbitals("unrestricted", na, nbb, occs, np.concatenate([ca, cb], axis=1), energies)
@@ -165,7 +173,7 @@ def make(fmt, rng, variant="plain", natom=None):
         scheme = "generalized"
     if variant == "fatal_pure":
         pure = True
-    obasis = make_basis(rng, natom, conv, scheme, lmax=2, pure=pure)
+    obasis = make_basis(rng, natom, conv, scheme, lmax=2, pure=pure, nshell=max(natom + 1, 3))
     if variant == "fatal_pure":
         from iodata.basis import Shell
         obasis.shells.append(Shell(0, [2], ["p"], [0.9], [[1.0]]))
@@ -175,6 +183,11 @@ def make(fmt, rng, variant="plain", natom=None):
         occ = "aminusb"
     if variant == "fatal_nonaufbau":
         occ = "nonaufbau"
+    if variant in ("fatal_nonaufbau_beta", "fatal_fractional"):
+        occ = variant[6:]
+    if variant in ("fatal_nonaufbau_ualpha", "fatal_nonaufbau_ubeta"):
+        occ = variant[6:]
+        kind = "unrestricted"
     if variant == "fatal_generalized":
         kind = "generalized"
     elif rng.random() < 0.3 and variant == "plain":
@@ -188,7 +201,8 @@ def make(fmt, rng, variant="plain", natom=None):
 
 
 VARIANTS = {
-    "fchk": ["plain", "convertible", "fatal_generalized", "fatal_nonaufbau"],
+    "fchk": ["plain", "convertible", "fatal_generalized", "fatal_nonaufbau", "fatal_nonaufbau_beta", "fatal_fractional",
+             "fatal_nonaufbau_ualpha", "fatal_nonaufbau_ubeta"],
     "molden": ["plain", "convertible", "convertible_amb", "fatal_generalized"],
     "molekel": ["plain", "convertible", "convertible_amb", "fatal_generalized"],
     "wfn": ["plain", "convertible", "convertible_amb", "fatal_generalized", "fatal_pure"],
